@@ -5,7 +5,7 @@ ENGINES = [
     {"name": "E2-sched", "path": "mc/sched.py", "serves_properties": ["C02", "C05"],
      "kind_free_text": "stateless preemption-bounded exploration of the real joblib thread-pool tasks under a baton "
                        "scheduler (sys.settrace scheduling points), one pool invocation at a time"},
-    {"name": "E1-enum", "path": "mc/core.py", "serves_properties": ["C01", "C02", "C03", "C11", "C12", "C17", "C18", "C19", "C20"],
+    {"name": "E1-enum", "path": "mc/core.py", "serves_properties": ["C01", "C02", "C03", "C05", "C11", "C12", "C17", "C18", "C19", "C20"],
      "kind_free_text": "bounded exhaustive enumeration of inputs/configurations/operation sequences on the real code "
                        "with reference-model or differential oracle; 16 forked workers"},
 ]
@@ -112,6 +112,22 @@ CHECKS.update({
              "non-protein fields unchanged, proteins joined, output valid, conversion idempotent, validity predicate "
              "exactly 'rectangular and no DefaultDirection line'; the CLI's verify step is driven on scratch files.",
         note="Fields are non-empty and whitespace free."),
+})
+
+CHECKS.update({
+    "C05": dict(
+        level="model_checking", engine="E1-enum + E2-sched", design="DESIGN.md 4/C05",
+        technique="differential bounded exhaustive enumeration of configuration deviations (chunk sizes 1..n+1, row groups, "
+                  "workers, format) against a reference execution + stateless preemption-bounded schedule exploration "
+                  "of every joblib pool invocation of read_pin / brew / assign_confidence",
+        text="brew -> assign_confidence on three designed tables (duplicates adjacent / far apart / exact duplicate rows) "
+             "and a two-file joint run is repeated under every single value 1..n+1 of each streaming chunk constant, "
+             "every Parquet row-group size, 1-16 workers, all pairs (quick) / triples (thorough) over a reduced value "
+             "set, with de-duplication on and off; scores and every result file must equal the reference execution; "
+             "read_pin likewise over its column/row scan chunks; each pool invocation is explored under the baton "
+             "scheduler (<=1 / <=2 preemptions) and must reproduce the sequential outcome.",
+        note="Rows with exactly equal scores may swap places; PEPs across text/Parquet compared at 5e-2 (qvality "
+             "amplifies last-bit score differences); third-party code atomic between scheduling points."),
 })
 
 NA = {
